@@ -199,12 +199,16 @@ func runC06(cfg runCfg) error {
 				lookups = append(lookups, rq)
 			}
 		}
-		if r.Intn(3) == 0 || (limited && len(lookups) > 0 && r.Intn(3) > 0) {
+		if r.Intn(2) == 0 || (limited && len(lookups) > 0 && r.Intn(3) > 0) {
 			rq := run0.Requests[r.Intn(len(run0.Requests))]
 			if limited && len(lookups) > 0 { // a failing lookup round together with a limit near the number of rounds
 				rq = lookups[r.Intn(len(lookups))]
 			}
-			faults = append(faults, faultSpec{Svc: rq.Svc, Target: faultTarget(env.fed, rq), Kind: faultKinds[r.Intn(len(faultKinds))]})
+			kind := faultKinds[r.Intn(len(faultKinds))]
+			if r.Intn(3) == 0 { // an answer with data AND errors: what it contributes must not depend on when it arrives
+				kind = "errors_partial"
+			}
+			faults = append(faults, faultSpec{Svc: rq.Svc, Target: faultTarget(env.fed, rq), Kind: kind})
 		}
 		max := int64(50)
 		if limited {
